@@ -24,8 +24,12 @@ CONSTANTS AsCode      \* TRUE: transcribe the printer as the code has it (2D off
 
 (* wsph: the world is spherical.  "convert spherical" only says how the rows give their points; it is
    legitimate with a Cartesian world too (wsph = FALSE, conv = TRUE) *)
-Configs == {c \in [dim : {2, 3}, nc : 0..3, ngc : 0..2, ng : 0..3, conv : BOOLEAN, comma : BOOLEAN, wsph : BOOLEAN] :
-               (c.conv => c.dim = 3) /\ (c.ngc = 0 => c.ng = 0) /\ (c.wsph => c.conv)}
+(* layout: where the option lines stand.  The options describe the file, not the rows that follow them: they hold
+   wherever they stand -- all before the rows ("header"), all after the last row ("trailer"), or spread between
+   blocks of rows with a blank line in between ("interleaved"). *)
+Layouts == {"header", "trailer", "interleaved"}
+Configs == {c \in [dim : {2, 3}, nc : 0..3, ngc : 0..2, ng : 0..3, conv : BOOLEAN, comma : BOOLEAN, wsph : BOOLEAN, layout : Layouts] :
+               (c.conv => c.dim = 3) /\ (c.ngc = 0 => c.ng = 0) /\ (c.wsph => c.conv) /\ (c.layout # "header" => ~c.comma)}
 
 Request(c) == <<PT, PV>> \o [i \in 1..c.nc |-> PC(i - 1)] \o [g \in 1..c.ngc |-> PG(g - 1, c.ng)] \o <<PTag>>
 
@@ -93,8 +97,18 @@ OptionLines(c) == << "# dim = " \o S(c.dim), "# compositions = " \o S(c.nc) >>
                   \o (IF c.conv THEN <<"# convert spherical = true">> ELSE <<>>)
                   \o <<"# a comment line that has to be ignored">>
 
+(* the file, line by line: [opt |-> text] or [row |-> fields] *)
+FileLines(c) ==
+  LET os == OptionLines(c)
+      opts(a, b) == [k \in 1..(b - a + 1) |-> [opt |-> os[a + k - 1]]]
+      rows(a, b) == [k \in 1..(b - a + 1) |-> [row |-> RowFields(c, a + k - 1)]]
+      n == Len(ProbesKm)
+  IN CASE c.layout = "header"  -> opts(1, Len(os)) \o rows(1, n)
+       [] c.layout = "trailer" -> rows(1, n) \o opts(1, Len(os))
+       [] c.layout = "interleaved" -> opts(1, 1) \o rows(1, 3) \o <<[opt |-> ""]>> \o opts(2, Len(os)) \o rows(4, n)
+
 Job(c) ==
-  [config |-> c, options |-> OptionLines(c), rows |-> [i \in 1..Len(ProbesKm) |-> RowFields(c, i)],
+  [config |-> c, options |-> OptionLines(c), rows |-> [i \in 1..Len(ProbesKm) |-> RowFields(c, i)], file |-> FileLines(c),
    header |-> PropHeader(c), slots |-> PropSlots(c), mechslots |-> MechSlots(c), ninputs |-> Len(Inputs(c)),
    mech_conforms |-> MechRefinesProp(c),
    behaviour |-> [id |-> <<"dat", c>>, labels |-> <<"dat">>,
